@@ -8,7 +8,7 @@ def ideal(n):
 
 
 def build_optic(ctx, surfs, obj_t=np.inf, aperture=('EPD', 10.0), field_type='angle', fields=(0.0,),
-                wavelengths=((0.55, True),), image=True):
+                wavelengths=((0.55, True),), image=True, image_n=None):
     """surfs: list of dict(radius=, thickness=, n=<index after, or None for air or 'mirror'>, conic=, stop=bool,
     type=, extra kwargs).  Adds object surface (index 0), the surfaces, and a final image surface."""
     from optiland.optic import Optic
@@ -24,7 +24,10 @@ def build_optic(ctx, surfs, obj_t=np.inf, aperture=('EPD', 10.0), field_type='an
         kw.update(s)
         o.add_surface(**kw)
     if image:
-        o.add_surface(index=len(surfs) + 1)
+        if image_n is None:
+            o.add_surface(index=len(surfs) + 1)
+        else:
+            o.add_surface(index=len(surfs) + 1, material=ideal(image_n))
     if aperture is not None:
         o.set_aperture(*aperture)
     o.set_field_type(field_type)
